@@ -171,3 +171,26 @@ def upgradeRead (leading : Bytes) (maxBytes : Nat) : Option (Bytes × Bytes) :=
   if leading.isEmpty then none else some (leading.take maxBytes, leading.drop maxBytes)
 
 end Httpcore.H1
+
+namespace Httpcore.H1
+open Httpcore
+
+/-- httpcore stops reading from the network as soon as the response head that switches protocols
+has been received: feed segments until the state is `switched`; returns the position reached and the
+segments that were *not* read (they stay in the network for the upgraded stream). -/
+def feedUntilSwitched (ri : ReqInfo) (st : List Ev × St × Bytes) : List Bytes → (List Ev × St × Bytes) × List Bytes
+  | [] => (st, [])
+  | seg :: rest =>
+    let st' := (reader ri).feed st seg
+    if st'.2.1 = .switched then (st', rest) else feedUntilSwitched ri st' rest
+
+/-- successive `read(max_bytes)` calls on the upgrade stream while leading data lasts:
+(results, leading data left) -/
+def upgradeReads : Bytes → List Nat → List Bytes × Bytes
+  | l, [] => ([], l)
+  | l, m :: ms =>
+    match upgradeRead l m with
+    | none => ([], l)
+    | some (out, l') => let r := upgradeReads l' ms; (out :: r.1, r.2)
+
+end Httpcore.H1
